@@ -171,14 +171,22 @@ class Executor(ExecResolve):
                     if "setter" not in m:
                         raise EngineError(f"property {tgt.attr} has no setter")
                     over = self.w.overriders(obj.cls, tgt.attr, q)
-                    c = self.find_contract(obj.cls, tgt.attr + ".setter")
-                    if c is not None:
-                        for s2, _ in self.apply_contract(s, c, obj, [v], {}, m["setter"]):
+                    # same resolution rule as for method calls: a contract at or below the defining class, else the exact
+                    # body when nothing below overrides it, else an interface-level contract
+                    c = None
+                    for qq in self.w.mro(obj.cls):
+                        c = api.CONTRACTS.get(f"{self.w.short_name(qq)}.{tgt.attr}.setter")
+                        if c is not None or qq == q:
+                            break
+                    if c is None and not over:
+                        for s2, _ in self.inline(s, m["setter"], q, obj, [v], {}):
                             yield s2
                         continue
-                    if over:
+                    if c is None:
+                        c = self.find_contract(obj.cls, tgt.attr + ".setter")
+                    if c is None:
                         raise EngineError(f"setter {tgt.attr} is overridden: needs a contract '{tgt.attr}.setter'")
-                    for s2, _ in self.inline(s, m["setter"], q, obj, [v], {}):
+                    for s2, _ in self.apply_contract(s, c, obj, [v], {}, m["setter"]):
                         yield s2
                     continue
                 self.write_field(s, obj, tgt.attr, v)
